@@ -104,7 +104,9 @@ public:
       }
     auto catalog(mounted->volume()->root());
 
-    int sectors_used = 2;
+    // Space is used from the start of the disc up to the end of the last
+    // file; with no files, only the catalog's own sectors are in use.
+    int sectors_used = static_cast<int>(data_sectors_reserved_for_catalog(catalog.disc_format()));
     const std::vector<DFS::CatalogEntry> entries = catalog.entries();
     for (const auto& entry : entries)
       {
